@@ -28,6 +28,8 @@ pub fn run_property(id: &str, tier: Tier, replay: Option<(String, Value)>) -> i3
         }
     }
     dispatch! {
+        "C01" => c01,
+        "C02" => c02,
         "C03" => c03,
         "C04" => c04,
         "C05" => c05,
